@@ -168,6 +168,7 @@ class Tracer:
                       exchange=order.exchange)
             if tr.snapshots:
                 ev['acct'] = tr.acct_snapshot(order.exchange)
+                ev['pos'] = tr.pos_snapshot(order.exchange, order.symbol)
             tr.emit('cancel_ret', **ev)
             return r
 
